@@ -63,6 +63,21 @@ def run(ctx, idx):
             ctx.ob("C18.k", "%s.execute::missing-value-not-narrowed" % rd[0].key, rd[0].module.rel, c_.lineno, dead,
                    "int() of the missing value sits under a test that is never true (the mask's element type) or that the value is whole" if dead else
                    "`%s` truncates the missing value on a live path: MissingValue = 2.5 becomes 2 and every valid cell holding 2 is reported missing (and overwritten with the fill value)" % K.src(c_)[:50])
+    ctx.rule("C18.l", "A read marks as missing what the file marks missing and the cells equal to the declared MissingValue - nothing else: the reader applies no value-based masking of its own (masked_invalid, masked_greater ..., fix_invalid). An infinite or NaN cell that was written as data comes back as data, and the Positive / Fuzzy range checks see it.")
+    MASKERS = ("masked_invalid", "fix_invalid", "masked_greater", "masked_greater_equal", "masked_less", "masked_less_equal", "masked_inside", "masked_outside", "masked_where", "masked_values",
+               "masked_equal", "masked_not_equal", "masked_object")
+    n_mk = 0
+    for c_ in ast.walk(rd[0].execute.node):
+        if isinstance(c_, ast.Call):
+            q_ = (idx.qualname(rd[0].execute.module, c_.func, rd[0].execute) or K.src(c_.func))
+            if q_.split(".")[-1] in MASKERS:
+                n_mk += 1
+                on_missing = any("MissingValue" in K.src(K.expand(rd[0].execute, a_)) for a_ in list(c_.args)[1:] + [k_.value for k_ in c_.keywords]) and q_.split(".")[-1] in ("masked_equal", "masked_values", "masked_where", "masked_object")
+                ctx.ob("C18.l", "%s.execute::masks-only-what-is-missing@%s" % (rd[0].key, q_.split(".")[-1]), rd[0].module.rel, c_.lineno, on_missing,
+                       "masks the cells equal to MissingValue" if on_missing else
+                       "`%s` marks cells missing by their VALUE: a cell that holds inf (or NaN) as data - written by EEMSWrite as it is - comes back missing, and the range checks of the Positive / Fuzzy types no longer see it" % K.src(c_)[:60])
+    if not n_mk:
+        ctx.hold("C18.l", "%s.execute::masks-only-what-is-missing" % rd[0].key, rd[0].module.rel, rd[0].execute.node.lineno, "no value-based masking call in the reader", nontrivial=False)
     ctx.rule("C18.j", "A Fuzzy read is limited to [-1, +1]: the reader calls insure_fuzzy(result, ...) for its effect and returns `result`, so the helper must clamp the object it is given, in place (C04.b's summary of the helper: bounds established on the argument itself and the argument returned). A helper that clamps a copy leaves the values inside the accepted 1% pad as stored.")
     from engine.arrays import Scal as _Scal
 
